@@ -121,6 +121,9 @@ var VerdictDefects = map[string]func(*model.Defects){
 	"anyof-merged":          func(d *model.Defects) { d.AnyOfMerged = true },
 	"null-object-zero":      func(d *model.Defects) { d.NullObjZero = true },
 	"addprop-container-lax": func(d *model.Defects) { d.AddPropObjLax = true },
+	"named-format-type":     func(d *model.Defects) { d.NamedFormat = true },
+	"named-array-no-rules":  func(d *model.Defects) { d.NamedArrayNoLim = true },
+	"null-enum-default":     func(d *model.Defects) { d.EnumNullZero = true },
 }
 
 // Explain returns the known finding whose defect model reproduces the tool's verdict, or "".
@@ -511,7 +514,7 @@ func decide(cfg *Config, rep *Report, ks *known.Set, p pending, res *batch.Res) 
 		oo := model.OutOpts{SkipDefaults: !cfg.Defaults, SkipAddProps: !cfg.AddProps}
 		diffs := model.CompareOut(p.c.Root, p.doc.V, out, oo)
 		if len(diffs) > 0 {
-			if sig := explainValue(ks, p, diffs, out); sig != "" {
+			if sig := explainValue(ks, p, diffs, out, oo); sig != "" {
 				rep.Known[sig]++
 				return
 			}
@@ -540,26 +543,43 @@ func explainPanic(ks *known.Set, p pending, res *batch.Res) string {
 	return ""
 }
 
-func explainValue(ks *known.Set, p pending, diffs []model.OutDiff, out any) string {
-	// every diff must be explained by one listed finding
-	sigOf := func(d model.OutDiff) string {
-		switch d.Kind {
-		case "addprops":
-			if ks.Has("addprops-true-not-collected") {
-				return "addprops-true-not-collected"
-			}
-		}
-		return ""
+// explainValue re-runs the value comparison with each listed value-defect model switched on;
+// a finding explains the difference only if its model makes every difference disappear.
+func explainValue(ks *known.Set, p pending, diffs []model.OutDiff, out any, base model.OutOpts) string {
+	type vd struct {
+		sig string
+		set func(*model.OutOpts)
 	}
-	var sig string
-	for _, d := range diffs {
-		s := sigOf(d)
-		if s == "" {
-			return ""
-		}
-		sig = s
+	all := []vd{
+		{"null-object-zero", func(o *model.OutOpts) { o.NullObjZero = true }},
+		{"addprops-true-not-collected", func(o *model.OutOpts) { o.AddPropsTrueNo = true }},
+		{"named-array-no-rules", func(o *model.OutOpts) { o.NamedArrayAnon = true }},
 	}
-	return sig
+	var listed []vd
+	for _, d := range all {
+		if ks.Has(d.sig) {
+			listed = append(listed, d)
+		}
+	}
+	for _, d := range listed {
+		o := base
+		d.set(&o)
+		if len(model.CompareOut(p.c.Root, p.doc.V, out, o)) == 0 {
+			return d.sig
+		}
+	}
+	if len(listed) > 1 {
+		o := base
+		var names []string
+		for _, d := range listed {
+			d.set(&o)
+			names = append(names, d.sig)
+		}
+		if len(model.CompareOut(p.c.Root, p.doc.V, out, o)) == 0 {
+			return strings.Join(names, "+")
+		}
+	}
+	return ""
 }
 
 func parity(cfg *Config, rep *Report, ks *known.Set, p pending, j, y *batch.Res) {
